@@ -861,7 +861,7 @@ func nativeReplay(repo, verif string, replayOverlay map[string]string, cfg *chec
 		bad := ""
 		mapOrderDependent := false
 		for _, in := range w.w.Inputs {
-			if strings.HasPrefix(in.Name, "maporder") {
+			if strings.HasPrefix(in.Name, "maporder") || strings.HasPrefix(in.Name, "sched") {
 				mapOrderDependent = true
 			}
 		}
